@@ -19,6 +19,7 @@ import operator
 import os
 import types
 
+import numpy as _np
 import sympy as sp
 
 from . import sym
@@ -236,6 +237,49 @@ SAFE_BUILTINS = {
 }
 
 
+def liftf(v):
+    """real-number semantics: every float the program touches is the exact real it denotes, so
+    constant arithmetic is exact too (CPython would round each intermediate product)"""
+    t = type(v)
+    if t is float:
+        if v != v or v in (float("inf"), float("-inf")):
+            return v
+        return S(sym.rat(v), "py")
+    if t is _np.float64 or t is _np.float32:
+        if not _np.isfinite(v):
+            return v
+        return S(sym.rat(float(v)), "np")
+    return v
+
+
+def concretize(x, depth=0):
+    """numeric S constants -> python numbers (at the boundary to native code)"""
+    if isinstance(x, S):
+        if isinstance(x.e, sp.Basic) and x.e.is_number and not sym.isbool(x.e):
+            if x.e.is_Integer:
+                return int(x.e)
+            try:
+                return float(x.e)
+            except Exception:
+                return x
+        if x.e is sp.true:
+            return True
+        if x.e is sp.false:
+            return False
+        return x
+    if depth > 3:
+        return x
+    if type(x) is list:
+        return [concretize(v, depth + 1) for v in x]
+    if type(x) is tuple:
+        return tuple(concretize(v, depth + 1) for v in x)
+    if type(x) is dict:
+        return {k: concretize(v, depth + 1) for k, v in x.items()}
+    if type(x) is slice:
+        return slice(concretize(x.start), concretize(x.stop), concretize(x.step))
+    return x
+
+
 class Interp:
     def __init__(self, src_root, overrides=None, max_paths=64, feas_timeout_ms=3000, inline=True):
         from . import npmodel
@@ -250,6 +294,8 @@ class Interp:
         self.reset_path([])
         self.pending = []
         self.functions_run = {}  # qualified name -> (file, first line, last line)
+        self.named_tables = {}  # id(ndarray) -> (name, ndarray): entries become named symbols
+        self.table_facts = {}  # Symbol -> exact value (definitional facts about named table entries)
         self.base_facts = []  # hypotheses valid on every path (preconditions)
         self.rng_counter = 0
 
@@ -289,6 +335,31 @@ class Interp:
             return True
         self.shape_failures.append({"what": what, "d1": d1, "d2": d2, "where": self.where, "result": r, "pc": list(self.pc)})
         return False
+
+    def name_table(self, arr, name):
+        self.named_tables[id(arr)] = (name, arr)
+
+    def table_symbol(self, arr, k):
+        name, _ = self.named_tables[id(arr)]
+        if k < 0:
+            k += arr.shape[0]
+        if not (0 <= k < arr.shape[0]):
+            raise UserRaise(IndexError("index %d is out of bounds for axis 0 with size %d" % (k, arr.shape[0])))
+        s = sp.Symbol("%s_%d" % (name, k), real=True)
+        if s not in self.table_facts:
+            self.table_facts[s] = sym.rat(arr[k].item())
+        return s
+
+    def table_hyps(self, big=10**30):
+        """definitional facts Eq(entry symbol, value); infinities are replaced by +-big"""
+        out = []
+        for s, v in self.table_facts.items():
+            if v is sp.oo:
+                v = sp.Integer(big)
+            elif v is -sp.oo:
+                v = -sp.Integer(big)
+            out.append(sp.Eq(s, v))
+        return out
 
     # -- branching
     def feasible(self, cond):
@@ -442,6 +513,9 @@ class Interp:
         return self.native(fn, args, kwargs)
 
     def native(self, fn, args, kwargs, trusted=False):
+        if not trusted:
+            args = concretize(list(args))
+            kwargs = concretize(dict(kwargs))
         if (has_sym(args) or has_sym(kwargs)) and not trusted:
             ok = False
             try:
@@ -463,7 +537,8 @@ class Interp:
                 "append", "extend", "insert", "update", "add", "pop", "remove", "clear", "setdefault", "sort"):
                 self.effect("container-mutation", bself, fn.__name__)
         try:
-            return fn(*args, **kwargs)
+            r = fn(*args, **kwargs)
+            return r if trusted else liftf(r)
         except (SymBranch,) as sb:
             raise Unsupported("symbolic truth value inside native %s" % getattr(fn, "__qualname__", fn))
         except (Unsupported, UserRaise, ReturnEx, PathLimit, ShapeError):
@@ -654,6 +729,11 @@ class Interp:
     def setitem(self, obj, idx, v):
         if not isinstance(obj, A):
             self.effect("setitem", obj, None)
+            idx = concretize(idx)
+            import numpy as np
+
+            if isinstance(obj, np.ndarray):
+                v = concretize(v)
             if has_sym(idx) and not isinstance(obj, dict):
                 raise Unsupported("store into concrete %s through symbolic index" % type(obj).__name__)
             import numpy as np
@@ -692,6 +772,10 @@ class Interp:
     def binop(self, op, a, b, inplace=False):
         import numpy as np
 
+        if isinstance(a, np.ndarray) and a.shape != () and isinstance(b, S):
+            b = concretize(b)
+        if isinstance(b, np.ndarray) and b.shape != () and isinstance(a, S):
+            a = concretize(a)
         if inplace and isinstance(a, (np.ndarray, list)) :
             self.effect("inplace", a, getattr(op, "__name__", "?"))
             if isinstance(a, np.ndarray) and has_sym(b):
@@ -917,10 +1001,10 @@ class Interp:
         return m(e, fr)
 
     def e_Constant(self, e, fr):
-        return e.value
+        return liftf(e.value)
 
     def e_Name(self, e, fr):
-        return fr.lookup(e.id)
+        return liftf(fr.lookup(e.id))
 
     def e_NamedExpr(self, e, fr):
         v = self.ev(e.value, fr)
@@ -929,7 +1013,7 @@ class Interp:
 
     def getattr(self, obj, name):
         try:
-            return getattr(obj, name)
+            return liftf(getattr(obj, name))
         except (Unsupported, SymBranch):
             raise
         except Exception as ex:
@@ -953,11 +1037,15 @@ class Interp:
     def getitem(self, obj, idx):
         import numpy as np
 
+        if not isinstance(obj, (A, S, T, Shape)):
+            idx = concretize(idx)
+        if isinstance(obj, np.ndarray) and id(obj) in self.named_tables and isinstance(idx, (int, np.integer)) and obj.ndim == 1:
+            return S(self.table_symbol(obj, int(idx)), "np")
         if isinstance(obj, np.ndarray) and has_sym(idx):
             m = self.models.get("ndarray-getitem")
             return m(obj, idx)
         try:
-            return obj[idx]
+            return liftf(obj[idx])
         except (Unsupported, SymBranch):
             raise
         except ShapeError as se:
